@@ -38,6 +38,13 @@ Proof.
   split; [exact (proj1 ex_paths_ok)|]. split; [cbn; tauto|reflexivity].
 Qed.
 
+(* t = (5,); [t, t] *)
+Definition ex_dag : obj := ONode 0 KList [(KI 0, ONode 1 KTuple [(KI 0, OLeaf 5)]); (KI 1, ORef 1 KTuple)].
+Lemma ex_dag_ok :
+  exists m lg, remap None true [] ex_dag = Done
+    (ONode 0 KList [(KI 0, ONode 1 KTuple [(KI 0, OLeaf 5)]); (KI 1, ONode 1 KTuple [(KI 0, OLeaf 5)])]) m lg.
+Proof. eexists. eexists. vm_compute. reflexivity. Qed.
+
 (* t = (l,), l = [t] *)
 Definition tuple_cycle : obj := ONode 0 KTuple [(KI 0, ONode 1 KList [(KI 0, ORef 0 KTuple)])].
 
